@@ -17,3 +17,10 @@ fn nan(x: f64) -> bool { x != x }
 #[kani::proof] fn ax_zero_refl() { assert!(0.0f64 == 0.0f64); }
 // R1 helper: `x.ceil() as usize` saturates (NaN -> 0, negative -> 0, +inf -> usize::MAX)
 #[kani::proof] fn ax_ceil_cast_saturates() { let x: f64 = kani::any(); let n = x.ceil() as usize; if nan(x) || x <= 0.0 { assert!(n == 0); } if x == f64::INFINITY { assert!(n == usize::MAX); } if x > 0.0 && x <= 1.0 { assert!(n == 1); } }
+// axioms of the V-rvspace unit (vf/units/rv_space.py)
+#[kani::proof] fn ax_eps_pos() { assert!(0.0 < f64::EPSILON && f64::EPSILON.is_finite()); assert!(f64::NEG_INFINITY < f64::INFINITY); }
+#[kani::proof] fn ax_sub_add_pos() { let a: f64 = kani::any(); let e: f64 = kani::any(); if 0.0 < e && e.is_finite() && !nan(a) { assert!(a - e <= a); assert!(a <= a + e); } }
+#[kani::proof] fn ax_order_misc() { let a: f64 = kani::any(); let b: f64 = kani::any();
+    if a < b || a <= b { assert!(!nan(a) && !nan(b)); }      // ax_lt_not_nan
+    if a < b { assert!(!(a > b)); }                           // ax_gt_asym
+    if a <= b { assert!(!(a > b)); } }                        // ax_le_not_gt, ax_gt_not_le
